@@ -208,8 +208,8 @@ for name, f, share, tier, kw, goals, parts in [
     ("switch_fallible_shared_chart", lambda: C.switch_basic(False, True), "chart", "thorough", {"dur_nodes": {"S", "X", "Y"}}, (),
      _parts2([("r0.S.label0", 2), ("r1.S.label0", 2), ("r0.X.kind0", 2), ("r1.X.kind0", 2)])),
     ("recurrent_inner_shared_chart", lambda: C.rec_inner_start(1, True), "chart", "thorough",
-     {"dur_nodes": {"S", "M", "D", "Side"}}, (), _parts2([("r0.D.want", 3), ("r1.D.want", 3)])),
-    ("rhombus_all_durations", _rhombus_b, "chart", "thorough", {"dur_nodes": {"A", "B", "C", "D"}}, (),
+     {"dur_nodes": {"M", "Side"}}, (), _parts2([("r0.D.want", 3), ("r1.D.want", 3), ("r0.M.kind0", 1)])),
+    ("rhombus_three_durations", _rhombus_b, "chart", "thorough", {"dur_nodes": {"A", "B", "C"}}, (),
      _parts2([("r0.B.kind0", 2), ("r1.B.kind0", 2)])),
 ]:
     register(Job("C08", name, make_c08(f, share, kw), tier=tier, budget_s=400 if tier == "quick" else 2400, goals=goals,
